@@ -6,7 +6,7 @@
 From Coq Require Import List NArith Bool Arith.
 From Storage Require Import Base.Bytes Db.RwLock Db.RwLockProofs Db.Content Db.Timeline Db.Snapshot Db.SnapshotProofs.
 From Storage Require Import Db.Reader Db.ReaderProofs Db.RestoreX Db.RestoreXProofs Db.RestoreJoin Db.RestoreJoinProofs.
-From Storage Require Import Db.SnapPath Db.SnapPathProofs.
+From Storage Require Import Db.SnapPath Db.SnapPathProofs Db.RestoreMeta Db.RestoreMetaProofs.
 Import ListNotations.
 
 (* For every database state d0 and every history  pre ; snapshot (any of Snapshot, SnapshotInTx in
@@ -300,3 +300,83 @@ Theorem expand_plain : forall (e : penv) (p : str),
   expand e p = p.
 Proof. exact expand_plain_lemma. Qed.
 Print Assumptions expand_plain.
+
+(* ---------------------------------------------------------------------------------------------
+   Readers of database-level METADATA while a restore is under way (Db/RestoreMeta.v):
+   GetSnapshotId, GetTimelineId in its three modes, a read transaction over everything, Stats,
+   GetDefaultSnapshotPath - called from inside the reader that feeds RestoreFromReader (i.e.
+   while the snapshot is still streaming to disk, before the reload lock is taken), by other
+   goroutines racing the restore, and afterwards.
+
+   For every history  pre ; snapshot ; post ; RestoreFromReader(a non-failing reader of any
+   behaviour over that file that makes any calls at any positions)  - pre and post arbitrary,
+   also such restores and calls: every path the restore listeners do not write reads as in the
+   snapshot, GetSnapshotId answers the id the snapshot call returned, and so does every
+   GetSnapshotId among any number of further metadata calls, and one made after them. *)
+Theorem restore_with_metadata_readers : forall (caps : nat -> nat) (p0 : pdb) (pre : list mop) (k : snap_kind)
+    (post : list mop) (len : nat) (sc : script) (cbs : list (nat * mcall)),
+  failing sc len = false ->
+  let d1 := base (px (mrun caps p0 pre)) in
+  let id := fresh (uuids d1) in
+  let d4 := base (px (mrestored caps p0 pre k post len sc cbs)) in
+  (forall q, listener_touched q = false -> lookup q (live d4) = lookup q (mark id (live d1)))
+  /\ get_snapshot_id (live d4) = Some id
+  /\ forall polls, snapids_are (Some id) (snd (mcalls d4 polls))
+                   /\ get_snapshot_id (live (fst (mcalls d4 polls))) = Some id.
+Proof. exact restore_with_metadata_readers_lemma. Qed.
+Print Assumptions restore_with_metadata_readers.
+
+(* What the restore leaves and what its listeners see do not depend on what was asked while the
+   snapshot was streaming in. *)
+Theorem restore_independent_of_reader_calls : forall (caps : nat -> nat) (p : pdb) (k len : nat) (sc : script)
+    (cbs : list (nat * mcall)) (c : content),
+  nth_error (files (base (px p))) k = Some c -> failing sc len = false ->
+  let with_calls := mstep caps p (MRestoreReader k len sc cbs) in
+  let without := mstep caps p (MRestoreReader k len sc []) in
+  live (base (px (fst with_calls))) = live (base (px (fst without)))
+  /\ (forall os b os' b', snd with_calls = MoRestore os b -> snd without = MoRestore os' b' -> b = b').
+Proof. exact restore_independent_of_calls_lemma. Qed.
+Print Assumptions restore_independent_of_reader_calls.
+
+(* A call made from inside the reader is the same call made in front of the restore (the
+   snapshot is persisted before anything of the database is touched): the history with calls
+   inside readers is the history [mflatten] without them - every theorem above applies. *)
+Theorem reader_calls_are_calls_before : forall (caps : nat -> nat) (p : pdb) (o : mop),
+  (forall k len sc cbs, o = MRestoreReader k len sc cbs -> nth_error (files (base (px p))) k <> None) ->
+  fst (mstep caps p o) = mrun caps p (mflatten o).
+Proof. exact mstep_flatten. Qed.
+Print Assumptions reader_calls_are_calls_before.
+
+(* ... and when the reader fails, the restore is refused: the database is what the calls that
+   were made before the failure left, nothing else changed *)
+Theorem restore_reader_error_with_calls : forall (caps : nat -> nat) (p : pdb) (k len : nat) (sc : script)
+    (cbs : list (nat * mcall)),
+  nth_error (files (base (px p))) k <> None -> failing sc len = true ->
+  let r := mcalls (base (px p)) (due sc len cbs) in
+  mstep caps p (MRestoreReader k len sc cbs) = (with_base p (fst r), MoRestore (snd r) XoRefused).
+Proof. exact mstep_reader_refused. Qed.
+Print Assumptions restore_reader_error_with_calls.
+
+(* Calls of other goroutines racing the restore of a snapshot file: each is one transaction under
+   the read lock, the swap happens under the write lock (restore_atomic_wrt_tx), so an execution
+   is [before] ; swap ; [after].  Every GetSnapshotId before the swap answers what the database
+   answered before the restore (OLD), every one after it - among them all that begin once the
+   restore has returned - the id of the restored snapshot (NEW): never anything else, and never
+   the old id once the new one is in place. *)
+Theorem metadata_read_during_restore_old_or_new : forall (x : xdb) (id : str) (c : content) (before after : list mcall),
+  meta_wf (live (base x)) ->
+  let '(x', o1, o2) := racing_restore x (mark id c) before after in
+  snapids_are (get_snapshot_id (live (base x))) o1
+  /\ snapids_are (Some id) o2
+  /\ get_snapshot_id (live (base x')) = Some id.
+Proof. exact racing_restore_old_or_new_lemma. Qed.
+Print Assumptions metadata_read_during_restore_old_or_new.
+
+(* the first timeline request after the swap - whoever makes it - gets the fresh id *)
+Theorem timeline_fresh_for_first_poller : forall (x : xdb) (id : str) (c : content) (before : list mcall)
+    (m : tmode) (t : str) (rest : list mcall),
+  forallb readonly (bodies x) = true ->
+  let '(_, _, o2) := racing_restore x (mark id c) before (MTimeline m (Some t) :: rest) in
+  exists o2', o2 = MoTimeline (Some t) true :: o2'.
+Proof. exact racing_restore_timeline_fresh_lemma. Qed.
+Print Assumptions timeline_fresh_for_first_poller.
